@@ -53,6 +53,10 @@ pub enum TOp {
     InsAt(u8, Sz),
     /// seed: insert `count` keys numbered 100, 200, 300, ... (ascending, or descending if the flag is set)
     SeedRun(u16, Sz, bool),
+    /// Text trees only: three keys of exactly `len` bytes that share their first len-1 bytes ('k' repeated) and end
+    /// in 'm', 'a', 'z' (inserted in that order; the last one with a 1.5-page payload): insert, lookup, ordered scan,
+    /// duplicate rejection, absent neighbours, removal. Self-contained (does not use the numbered-key model).
+    KeyLen(u16),
 }
 
 impl TOp {
@@ -69,6 +73,7 @@ impl TOp {
             TOp::RemRun(r, c) => format!("remove-run(region {r}, {c} keys)"),
             TOp::Grow2(c, s) => format!("tree2.insert-run({c} keys, {s:?})"),
             TOp::InsAt(g, s) => format!("insert-above-seed-key({g},{s:?})"),
+            TOp::KeyLen(l) => format!("text-keys-of-{l}-bytes"),
             TOp::SeedRun(c, s, d) => format!("seed-run({c} keys, {s:?}{})", if *d { ", descending" } else { "" }),
         }
     }
@@ -141,6 +146,64 @@ fn payload(page: usize, key: u32, sz: Sz, stamp: u32) -> Vec<u8> {
         *b = (key as usize * 31 + stamp as usize * 7 + i) as u8;
     }
     v
+}
+
+/// see `TOp::KeyLen`
+fn key_len_case(env: &TreeEnv, t: &TreeHandle, len: usize, page: usize) -> Result<(), String> {
+    let len = len.max(1);
+    let mk = |c: char| Key::T(format!("{}{}", "k".repeat(len - 1), c));
+    let pay = |c: char| -> Vec<u8> {
+        let n = if c == 'z' { page + page / 2 } else { 8 };
+        (0..n).map(|i| (i as u8).wrapping_mul(7).wrapping_add(c as u8)).collect()
+    };
+    for c in ['m', 'a', 'z'] {
+        env.insert(t, &mk(c), &pay(c), 1).map_err(|e| format!("insert of the {len}-byte key ending in '{c}' failed: {e}"))?;
+    }
+    for c in ['a', 'm', 'z'] {
+        match env.search(t, &mk(c)).map_err(|e| format!("lookup of the {len}-byte key ending in '{c}' failed: {e}"))? {
+            Some(p) if p == pay(c) => {}
+            Some(p) => return Err(format!("lookup of the {len}-byte key ending in '{c}' returns a {}-byte payload that differs from the one stored", p.len())),
+            None => return Err(format!("lookup of the {len}-byte key ending in '{c}': not found right after its insert")),
+        }
+    }
+    let scan = env.scan(t).map_err(|e| format!("scan with {len}-byte keys failed: {e}"))?;
+    let got: Vec<&Key> = scan.iter().map(|e| &e.0).collect();
+    let want = [mk('a'), mk('m'), mk('z')];
+    if got != want.iter().collect::<Vec<_>>() {
+        let tails: Vec<String> = scan.iter().map(|e| if let Key::T(s) = &e.0 { format!("{}B..{:?}", s.len(), s.chars().last()) } else { "?".into() }).collect();
+        return Err(format!("scan with {len}-byte keys returns {} entries {:?}, expected the keys ending in a, m, z in this order", scan.len(), tails));
+    }
+    for (e, c) in scan.iter().zip(['a', 'm', 'z']) {
+        if e.1 != pay(c) {
+            return Err(format!("scan returns a wrong payload for the {len}-byte key ending in '{c}'"));
+        }
+    }
+    for c in ['m', 'a', 'z'] {
+        if env.insert(t, &mk(c), &pay('m'), 1).is_ok() {
+            return Err(format!("second insert of the stored {len}-byte key ending in '{c}' was accepted"));
+        }
+    }
+    for absent in [mk('b'), mk('y'), Key::T("k".repeat(len - 1)), Key::T("k".repeat(len))] {
+        if let Some(_) = env.search(t, &absent).map_err(|e| format!("lookup of an absent {len}-byte neighbour failed: {e}"))? {
+            return Err(format!("lookup of an ABSENT key next to the {len}-byte keys finds an entry"));
+        }
+    }
+    env.remove(t, &mk('m')).map_err(|e| format!("remove of the {len}-byte key ending in 'm' failed: {e}"))?;
+    if env.search(t, &mk('m')).map_err(|e| format!("lookup after remove failed: {e}"))?.is_some() {
+        return Err(format!("the removed {len}-byte key ending in 'm' is still found"));
+    }
+    let scan = env.scan(t).map_err(|e| format!("scan after remove failed: {e}"))?;
+    if scan.iter().map(|e| &e.0).collect::<Vec<_>>() != [mk('a'), mk('z')].iter().collect::<Vec<_>>() {
+        return Err(format!("scan after removing the middle {len}-byte key returns {} entries", scan.len()));
+    }
+    // leave the tree empty (the numbered-key model of the generic oracle knows nothing of these keys)
+    for c in ['z', 'a'] {
+        env.remove(t, &mk(c)).map_err(|e| format!("remove of the {len}-byte key ending in '{c}' failed: {e}"))?;
+    }
+    if !env.scan(t).map_err(|e| format!("scan of the emptied tree failed: {e}"))?.is_empty() {
+        return Err(format!("the tree is not empty after removing all three {len}-byte keys"));
+    }
+    Ok(())
 }
 
 /// Engine panics must not take the worker down: they are observations.
@@ -561,6 +624,7 @@ pub fn run_once(p: &BtParams, hist: &[usize]) -> StepReport {
                 }
                 r
             }
+            TOp::KeyLen(len) => guard(|| key_len_case(&env, &t1.handle, *len as usize, page)),
             TOp::InsAt(gap, isz) => {
                 let n = 100 + 100 * (*gap as u32) + 50 + t1.run_off[1] % 40;
                 t1.run_off[1] += 1;
